@@ -53,6 +53,12 @@ theorem traceNilSnapshotReturnsErrNoCurrentSnapshot : Generated.C19.traceNilSnap
 theorem traceNoDiskPartsNoManifest : Generated.C19.traceNoDiskPartsNoManifest = true := rfl
 theorem tracePartDirRemovedOnlyAtRefZeroAndRemovable : Generated.C19.tracePartDirRemovedOnlyAtRefZeroAndRemovable = true := rfl
 theorem tracePinThenDeferUnpinBeforeLinks : Generated.C19.tracePinThenDeferUnpinBeforeLinks = true := rfl
+theorem traceCorePinnedInsideFence : Generated.C19.traceCorePinnedInsideFence = true := rfl
+theorem traceNilSnapshotReleasesFence : Generated.C19.traceNilSnapshotReleasesFence = true := rfl
+theorem traceFenceReleasedOnlyByHelper : Generated.C19.traceFenceReleasedOnlyByHelper = true := rfl
+theorem traceIndexLinkedInsideFence : Generated.C19.traceIndexLinkedInsideFence = true := rfl
+theorem tracePublicationsHoldFenceExclusively : Generated.C19.tracePublicationsHoldFenceExclusively = true := rfl
+theorem traceSinglePublicationSite : Generated.C19.traceSinglePublicationSite = true := rfl
 theorem closedExcludes_tie : Generated.C19.closedExcludes = C19.closedExcludes := rfl
 
 end Banyan.Tie.C19
